@@ -24,6 +24,7 @@ EXPLANATION = (
     "to() raising DimensionalityError when contexts are involved), G-MEMO key/fill rules on "
     "_get_dimensionality. Decides these necessary structural clauses for every path of the anchored "
     "functions; does not decide that _get_dimensionality_recurse computes the right exponents.")
+EXPLANATION += " Also decided (round 5): in the dimensionality recursion the combined exponent of an entry is accumulated only under that entry's own key (a base unit's reference is expanded like any other, with its exponents and derived dimensions)."
 
 PR = "pint.facets.plain.registry"
 DIM_CALLS = {"_get_dimensionality", "get_dimensionality"}
